@@ -84,7 +84,10 @@ Stalls(size, limit, stallAt) == stallAt >= 0 /\ stallAt < Forwarded(size, limit)
 
 \* enumeration of copy cases (each state is one test case for SendDirectInvokeResponse)
 CopyCases == [size : {0, 1, 99, 100, 101, 102, 5000}, limit : {100, -1}, failAt : {-1, 0, 50, 100, 101, 2500}, chunk : {1, 7, 64, 4096},
-              stallAt : {-1, 0, 50, 2500}]
+              stallAt : {-1, 0, 50, 2500},
+              \* the response mode the function declared: it changes which trailers are announced, never the classification -
+              \* and the classification trailer announced when the request was received must still be delivered
+              fnMode : {"", "streaming"}]
 CopyInit == /\ \E k \in CopyCases :
                  cc = [k EXCEPT !.failAt = IF k.failAt >= k.size \/ k.stallAt # -1 THEN -1 ELSE k.failAt,
                                 !.stallAt = IF k.stallAt >= k.size THEN -1 ELSE k.stallAt]
